@@ -283,4 +283,36 @@ theorem h2_in_use_view (ka : Option Nat) (ops : List Op2) (now id origin : Nat) 
   refine ⟨h2_in_use_never_expires ka ops now hu hc, h2_in_use_never_idle ka ops hu, ?_⟩
   simp [view2, Gen.h2IsClosed, hc]
 
+/-- **h2_state_cases** (C05) - every reachable state of an HTTP/2 connection object is one of four: closed; in use (then ACTIVE);
+unused and IDLE (it can be reused, expire or be evicted); or unused and still ACTIVE - the state a request leaves behind when it
+goes away before it has opened its stream and nobody else is using the connection.  The pool reclaims exactly that last one
+(`h2_abandoned_reclaimed`, `C05Pool.no_abandoned_after_pass`). -/
+theorem h2_state_cases (ka : Option Nat) (ops : List Op2) :
+    let g := run2 (init2 ka) ops
+    g.c.st = .closed ∨ (g.inUse ∧ g.c.st = .active) ∨ (¬ g.inUse ∧ g.c.st = .idle) ∨ (¬ g.inUse ∧ g.c.st = .active) := by
+  intro g
+  have h : Inv2 g := inv2_run _ ops (inv2_init ka)
+  have h2 := h.idle_unused
+  have h3 := h.never_new
+  unfold G2.inUse
+  cases hst : g.c.st <;> grind
+
+open Httpcore.Pool in
+/-- **h2_abandoned_reclaimed** (C05) - an HTTP/2 connection that is ACTIVE with nobody on it and that no queued request holds is
+closed by the house-keeping loop of the very next pass (reason: abandoned), with the clean-up rule of the current source. -/
+theorem h2_abandoned_reclaimed (cfg : Cfg) (hre : cfg.reclaimAbandoned = true) (res : List Nat) (now id origin : Nat) (c : H2)
+    (rest cur : List Conn) (closing : List (Conn × Reason))
+    (hst : c.st = .active) (hexp : c.expireAt = none) (hres : isReserved res (view2 now id origin c) = false) :
+    cleanup cfg res (view2 now id origin c :: rest) cur closing =
+      cleanup cfg res rest (cur.erase (view2 now id origin c)) (closing ++ [(view2 now id origin c, .abandoned)]) := by
+  have h1 : (view2 now id origin c).closed = false := by simp [view2, Gen.h2IsClosed, hst]
+  have h2 : (view2 now id origin c).expired = false := by simp [view2, Gen.h2HasExpired, hexp]
+  have h3 : (view2 now id origin c).idle = false := by simp [view2, Gen.h2IsIdle, hst]
+  simp [cleanup, h1, h2, h3, hre, hres]
+
+/-- in the abandoned state the expiry is not armed (so the clause `hexp` above is met in every reachable state) -/
+theorem h2_active_no_expiry (ka : Option Nat) (ops : List Op2) :
+    (run2 (init2 ka) ops).c.st = .active → (run2 (init2 ka) ops).c.expireAt = none :=
+  (inv2_run _ ops (inv2_init ka)).expiry_only_idle
+
 end Httpcore.LifeProps
